@@ -2179,3 +2179,51 @@ func ruleEveryRuleOfTheExpansionProcessed(w *World, r *Report, prop, rule string
 	}
 	r.floor(rule+" processPDR calls in a loop", n, 2)
 }
+
+// round6pre runs before a property's own rule set. It decides shapes that are recognisably wrong and would make
+// the rule set give up (exit 2) instead of reporting them. Returns true when the rule set must be skipped.
+func round6pre(w *World, r *Report) bool {
+	if r.Prop != "C02" {
+		return false
+	}
+	// R02.17: only a message of a response type is handed to the waiter of an own request. Looking the
+	// sequence number up before the type dispatch lets a peer's REQUEST whose sequence number happens to equal
+	// that of a pending own request be swallowed as its answer: the request is never answered.
+	dispatch := w.Fn("C02", "pfcpiface.(*PFCPConn).HandlePFCPMsg")
+	hir := w.Fn("C02", "pfcpiface.(*PFCPConn).handleIncomingResponse")
+	isMsgType := func(v ssa.Value) bool {
+		c, ok := v.(*ssa.Call)
+		return ok && c.Call.IsInvoke() && c.Call.Method.Name() == "MessageType"
+	}
+	respTypes := map[int64]bool{}
+	for name, k := range msgTypeNames(w, "C02") {
+		_ = name
+		if strings.HasSuffix(k, "Response") {
+			respTypes[name] = true
+		}
+	}
+	bad := false
+	for _, c := range callsTo(dispatch, hir) {
+		ok := onlyVia(dispatch, c.(ssa.Instruction), func(a, b *ssa.BasicBlock) bool {
+			x, op, y, ok := edgeFact(a, b)
+			if !ok || op.String() != "==" {
+				return false
+			}
+			var k int64
+			var isK bool
+			if isMsgType(x) {
+				k, isK = constInt(y)
+			} else if isMsgType(y) {
+				k, isK = constInt(x)
+			}
+			return isK && respTypes[k]
+		})
+		if !ok {
+			bad = true
+			r.bad("R02.17", w.FuncName(dispatch), "only a response-type message is handed to the waiter of an own request", w.Pos(c.Pos()), "handleIncomingResponse is reached without the dispatch having found a response type: a peer's request whose sequence number equals that of a pending own request (heartbeat monitor, association setup) is taken for its answer and never answered itself")
+		} else {
+			r.ok("R02.17", w.FuncName(dispatch), "only a response-type message is handed to the waiter of an own request", w.Pos(c.Pos()), "behind a response-type case")
+		}
+	}
+	return bad
+}
